@@ -203,7 +203,10 @@ def hasDup : List (Nat × Bytes) → Bool
 /-- `Upload.flush`; `none` = the INSERT violated PRIMARY KEY (UploadID, RecordID, Name) -/
 def Tx.flush (t : Tx) : Option Tx :=
   let t1 := { t with txRec := t.txRec ++ t.pendRec, pendRec := [] }
-  if hasDup t.pendLab || t.pendLab.any (fun x => t.txLab.any (fun y => y == x)) then none
+  -- rows already sent can only collide with pending rows of the same RecordID: look at those only
+  let lo := t.pendLab.foldl (fun m x => min m x.1) t.recordid
+  let sent := t.txLab.filter (fun y => lo ≤ y.1)
+  if hasDup t.pendLab || t.pendLab.any (fun x => sent.any (fun y => y == x)) then none
   else some { t1 with txLab := t.txLab ++ t.pendLab, pendLab := [], last := none }
 
 /-- `insertLabel` -/
